@@ -16,7 +16,7 @@ RULE = (
     '3 sites + no-site (7 per-frame options), realised geometrically (atom placed in the inner sphere, the outer '
     'shell or away from all sites) and pushed through the public pipeline Trajectory.transitions_between_sites '
     'in batches (one atom per history) and, for the shorter lengths, one history per call; (b) random multi-atom '
-    'hop histories on random lattices, plus a few very long histories (33 000 - 131 000 frames: frame indices beyond the int16/uint16 ranges).  Oracle: loop model of the change-log computed from the states the object '
+    'hop histories on random lattices, site sets with 130 - 2100 sites visited at high indices, plus a few very long histories (33 000 - 131 000 frames: frame indices beyond the int16/uint16 ranges).  Oracle: loop model of the change-log computed from the states the object '
     'itself reports.  A case is non-trivial when it contains at least one site change; distinct = SHA-1 of the '
     '(states, inner states) arrays.'
 )
@@ -31,6 +31,7 @@ SINGLE_LMAX = {'quick': 3, 'thorough': 4}
 CHUNK = 1500
 N_RANDOM = {'quick': 320, 'thorough': 8000}
 N_LONG = {'quick': 3, 'thorough': 16}
+N_MANY = {'quick': 6, 'thorough': 60}
 BUDGET_S = {'quick': 200, 'thorough': 2400}
 
 _mon = Monitor()
@@ -63,6 +64,9 @@ def units(tier):
     # very long histories (frame indices beyond the int16 / uint16 ranges)
     for i in range(N_LONG[tier]):
         out.append({'k': 'long', 'i': i})
+    # site sets with hundreds to thousands of sites (indices beyond 127 / 255 / 999)
+    for i in range(N_MANY[tier]):
+        out.append({'k': 'manysites', 'i': i})
     return out
 
 
@@ -249,7 +253,12 @@ def run_unit(unit, rng, ctx):
     # random multi-atom pipeline systems
     big = ctx.tier == 'thorough' and unit['i'] % 10 == 0
     T = int(rng.integers(200, 2000)) if big else int(rng.integers(2, 80))
-    if k == 'long':
+    if k == 'manysites':
+        ns = int([130, 260, 1100, 2100, 300, 1500][unit['i'] % 6])
+        T = int(rng.integers(20, 60))
+        sys_ = gen.make_many_site_system(rng, ns, n_atoms=int(rng.integers(1, 4)), T=T, inner_fraction=float(rng.choice([1.0, 0.5])), p_move=0.4)
+        ctx.count('many_site_systems')
+    elif k == 'long':
         T = int([33000, 40000, 66000, 70000, 131100][unit['i'] % 5] + rng.integers(0, 500))
         sys_ = gen.make_site_system(rng, T=T, n_atoms=int(rng.integers(1, 3)), n_sites=int(rng.integers(3, 6)), margin=0.04, p_move=float(rng.choice([0.0005, 0.003])), n_framework=1)
         ctx.count('very_long_histories')
